@@ -856,6 +856,15 @@ void matrixSslDeleteSession(ssl_t *ssl)
     }
 # endif
 #endif /* USE_SERVER_SIDE_SSL */
+#if defined(USE_TLS_1_3) && defined(USE_CLIENT_SIDE_SSL)
+    if (!(ssl->flags & SSL_FLAGS_SERVER) && ssl->tls13OwnSid && ssl->sid)
+    {
+        /* The application gave no session id struct, so NewSessionTicket
+           parsing allocated one (with a ticket and a PSK inside). */
+        matrixSslDeleteSessionId(ssl->sid);
+        ssl->sid = NULL;
+    }
+#endif
 
     ssl->sessionIdLen = 0;
 
